@@ -138,6 +138,16 @@ func init() {
 	opTable["allmoves"] = func(s *Session, a []string) string {
 		return fmtMoves(decPos(a[0]).AllMoves(nil))
 	}
+	// allmovesbuf <pos> <move> <k>: the move list of a successor that lives in caller-supplied storage of ANOTHER board
+	// size (tak.Alloc(k), k >= size: a size-independent pool of scratch positions)
+	opTable["allmovesbuf"] = func(s *Session, a []string) string {
+		p := decPos(a[0])
+		q, err := p.MovePreallocated(decMove(a[1]), tak.Alloc(atoi(a[2])))
+		if err != nil {
+			return "err"
+		}
+		return fmtMoves(q.AllMoves(nil))
+	}
 	// the legal set as search sees it: AllMoves filtered by Move
 	opTable["slegal"] = func(s *Session, a []string) string {
 		p := decPos(a[0])
